@@ -15,8 +15,23 @@ fn strs(v: &Value) -> Vec<String> {
     v.as_array().map(|a| a.iter().map(|x| x.as_str().unwrap().to_string()).collect()).unwrap_or_default()
 }
 
-/// Execute one action of the shared vocabulary against the real clients.
+/// Execute one action and attach the C14 scan of everything the library logged or returned during it.
 pub fn exec_action(w: &mut World, a: &Value) -> Value {
+    let _ = crate::logcap::drain();
+    let mut v = exec_action_inner(w, a);
+    let texts = crate::logcap::drain();
+    let c = a["c"].as_str().unwrap_or("").to_string();
+    let leaks = w.scan_leaks(&c, &texts);
+    let o = v.as_object_mut().unwrap();
+    o.insert("leak".into(), json!(leaks));
+    o.insert("nlog".into(), json!(texts.len()));
+    if std::env::var("VERIF_DEBUG_LOG").is_ok() {
+        o.insert("logs".into(), json!(texts));
+    }
+    v
+}
+
+fn exec_action_inner(w: &mut World, a: &Value) -> Value {
     let op = a["op"].as_str().unwrap();
     let c = a["c"].as_str().unwrap_or("");
     let g = a["g"].as_str().unwrap_or("g1");
@@ -31,6 +46,7 @@ pub fn exec_action(w: &mut World, a: &Value) -> Value {
         "Leave" => w.op_leave(c, g, ts, rank),
         "Deliver" => w.op_deliver(c, a["e"].as_str().unwrap(), ts, rank),
         "Restart" => w.op_restart(c),
+        "Junk" => w.op_junk(c, g, a["class"].as_str().unwrap(), ts, rank, a["base"].as_str().unwrap_or("")),
         "Welcome" => w.op_welcome(c, a["w"].as_str().unwrap(), a["what"].as_str().unwrap(), a["fresh"].as_bool().unwrap_or(false)),
         _ => panic!("unknown op {op}"),
     }
@@ -47,6 +63,7 @@ pub struct RandCfg {
     pub restarts: bool,
     pub observers: bool,
     pub replay_welcomes: bool,
+    pub junk: bool,
 }
 
 fn fingerprint(post: &Value) -> String {
@@ -90,6 +107,7 @@ pub fn random_history(cfg: &RandCfg, rng: &mut StdRng, r: &mut Recorder, clients
     let mut clock: u64 = 10;
     let mut used_ranks: BTreeSet<u64> = BTreeSet::new();
     let mut delivered: BTreeSet<String> = BTreeSet::new();
+    let mut junk_events: Vec<String> = vec![];
     let mut withdrawn: BTreeSet<String> = BTreeSet::new();
     let g = "g1";
 
@@ -181,6 +199,18 @@ pub fn random_history(cfg: &RandCfg, rng: &mut StdRng, r: &mut Recorder, clients
             }
             used_ranks.insert(ts * 100 + rk);
             Some(exec_action(&mut w, &json!({"op":"Commit","c":c,"g":g,"kind":kind,"arg":arg,"ts":ts,"rank":rk})))
+        } else if cfg.junk && roll >= 90 && roll < 96 {
+            let classes = ["badkind", "noh", "multih", "shorth", "nonhexh", "stale", "future", "nogroup", "undecryptable", "mlsjunk", "truncated", "bitflip"];
+            let class = classes[rng.gen_range(0..classes.len())];
+            // tampering needs a real event to start from: any published non-junk event (old commits included)
+            let real: Vec<String> = w.ev_order.iter().filter(|n| w.events[*n].kind != "junk").cloned().collect();
+            let base = if (class == "bitflip" || class == "truncated") && !real.is_empty() { real[rng.gen_range(0..real.len())].clone() } else { String::new() };
+            let mut rk = rank;
+            while used_ranks.contains(&(ts * 100 + rk)) { rk = rk % 15 + 1; }
+            used_ranks.insert(ts * 100 + rk);
+            let v = exec_action(&mut w, &json!({"op":"Junk","c":c,"g":g,"class":class,"ts":ts,"rank":rk,"base":base}));
+            if v["res"] == json!("Ok") { junk_events.push(v["e"].as_str().unwrap().to_string()); }
+            Some(v)
         } else if cfg.restarts && roll >= 96 && w.clients[&c].backend == "sql" {
             Some(exec_action(&mut w, &json!({"op":"Restart","c":c})))
         } else if roll < 26 {
@@ -207,7 +237,7 @@ pub fn random_history(cfg: &RandCfg, rng: &mut StdRng, r: &mut Recorder, clients
                 let idx = if rng.gen_bool(0.7) { k - 1 - rng.gen_range(0..k.min(4)) } else { rng.gen_range(0..k) };
                 let e = w.ev_order[idx].clone();
                 let parent = w.events[&e].parent.clone();
-                let ok = (cfg.regime != "causal" || held[&c].contains(&parent)) && !withdrawn.contains(&e);
+                let ok = (cfg.regime != "causal" || held[&c].contains(&parent) || w.events[&e].kind == "junk") && !withdrawn.contains(&e);
                 if ok {
                     delivered.insert(e.clone());
                     let mut rk = rank;
@@ -255,7 +285,7 @@ pub fn random_history(cfg: &RandCfg, rng: &mut StdRng, r: &mut Recorder, clients
             // ... and late joiners are also handed the events created before they joined
             let observer = cfg.observers && (w.project(&c, g)["mls"] != json!("ok")
                 || held[&c].iter().any(|h| h.len() > parent.len() && (parent.is_empty() || h.starts_with(&format!("{parent}.")))));
-            if withdrawn.contains(&e) || (cfg.regime == "causal" && !held[&c].contains(&parent) && !observer) {
+            if withdrawn.contains(&e) || (cfg.regime == "causal" && !held[&c].contains(&parent) && !observer && w.events[&e].kind != "junk") {
                 continue;
             }
             let before = fingerprint(&w.project(&c, g));
